@@ -78,17 +78,25 @@ theorem dp_postprocess {Ω ι : Type*} [MeasurableSpace Ω] [Countable ι] (μ :
 
 /-! ### D: the model samplers end to end -/
 
+/-- over ℝ the float addition and rounding of `Geometric.randomise` are exact: the output is `value + noise` -/
+theorem geomRandomise_real (eps : ℝ) (sens : ℕ) (x : ℤ) (u : ℝ) :
+    geomRandomise eps sens x u = if 0 < sens then x + geomNoise (-eps / (sens : ℝ)) u else x := by
+  unfold geomRandomise
+  split
+  · rw [transc_floor, ← Int.cast_add, Int.floor_intCast]
+  · rfl
+
 theorem geomRandomise_cell (eps : ℝ) (sens : ℕ) (hsens : 0 < sens) (x o : ℤ) :
     {u : ℝ | u ∈ Ico (0 : ℝ) 1 ∧ geomRandomise eps sens x u = o} =
       {u : ℝ | u ∈ Ico (0 : ℝ) 1 ∧ geomNoise (-eps / (sens : ℝ)) u = o - x} := by
   ext u
-  simp only [mem_ofPred_eq, geomRandomise, if_pos hsens]
+  simp only [mem_ofPred_eq, geomRandomise_real, if_pos hsens]
   constructor <;> rintro ⟨h, h'⟩ <;> exact ⟨h, by omega⟩
 
 theorem geomRandomise_cell_zero (eps : ℝ) (x o : ℤ) :
     {u : ℝ | u ∈ Ico (0 : ℝ) 1 ∧ geomRandomise eps 0 x u = o} = if x = o then Ico (0 : ℝ) 1 else ∅ := by
   ext u
-  by_cases h : x = o <;> simp [geomRandomise, h]
+  by_cases h : x = o <;> simp [geomRandomise_real, h]
 
 private theorem scale_neg (eps : ℝ) (heps : 0 < eps) (sens : ℕ) (hsens : 0 < sens) : -eps / (sens : ℝ) < 0 :=
   div_neg_of_neg_of_pos (by linarith) (by exact_mod_cast hsens)
